@@ -359,3 +359,5 @@ func runLEX(e *Env) (*Summary, error) {
 	}
 	return col.Finish(start), nil
 }
+
+func init() { groups["LEX"] = runLEX }
